@@ -5,7 +5,8 @@
    that would not terminate within its fuel is a Panic as well. *)
 From Verif Require Import Base.Sx Base.GoSem Model.Decoders.Common Model.Decoders.Cri Model.Decoders.Postgres
   Model.Decoders.Nginx Model.Decoders.Syslog Model.Decoders.SyslogRfc3164 Model.Decoders.SyslogRfc5424
-  Model.Decoders.Csv Model.Decoders.JsonCut
+  Model.Decoders.Csv Model.Decoders.JsonCut Model.Decoders.ToJson Model.Decoders.Select Model.Decoders.PipeIn Model.Decoders.Params
+  Proofs.Decoders.Select Proofs.Decoders.PipeIn Proofs.Decoders.Params
   Proofs.Decoders.Cri Proofs.Decoders.Postgres Proofs.Decoders.Nginx Proofs.Decoders.SyslogRfc3164
   Proofs.Decoders.SyslogRfc5424 Proofs.Decoders.Csv Proofs.Decoders.JsonCut.
 From Coq Require Import Permutation.
@@ -194,6 +195,105 @@ Theorem c12_json_cut_framed : forall pre fs out, Forall jf_ok fs ->
 Proof. exact json_cut_framed_doc. Qed.
 Print Assumptions c12_json_cut_framed.
 
+(* ---- Pipeline.In: the decoder the pipeline selects, and what In does with a line --------------------- *)
+(* csv with all three invalid_line_mode values ("fatal" is logger.Fatalf - the distinguished error 5, a configured exit,
+   never a Panic); modes other than "fatal" are the two-mode function of c12_csv_total *)
+Theorem c12_csv_mode_total : forall trim_space delimiter ncolumns mode data p,
+  decode_csv_mode trim_space delimiter ncolumns mode data <> Panic p.
+Proof. exact decode_csv_mode_total. Qed.
+Print Assumptions c12_csv_mode_total.
+
+Theorem c12_csv_mode_checked : forall trim_space delimiter ncolumns mode data,
+  mode <> 2 ->
+  decode_csv_mode trim_space delimiter ncolumns mode data =
+  decode_csv_checked trim_space delimiter ncolumns (mode =? 1) data.
+Proof. exact decode_csv_mode_checked. Qed.
+Print Assumptions c12_csv_mode_checked.
+
+(* "Pipeline.In selects the decoder" (decoder.TypeFromString / decoder.New in pipeline.New, SuggestDecoder, the JSON
+   fallback of Start, the switch of In): for every configured name, every list of suggested types and every judgement
+   of the decoder constructors on the params (pok), a pipeline that starts (no Fatal) has a type the switch of In knows
+   - it never reaches logger.Panic("unknown decoder") -, the type is not AUTO any more, and when the switch calls
+   p.decoder.DecodeToJson that decoder is not nil and has the pipeline's type *)
+Theorem c12_in_selects_decoder : forall pok name suggested st,
+  pipe_resolve pok name suggested = Some st ->
+  (in_route (ps_type st) <> RUnknown) /\ (ps_type st <> 1) /\
+  (in_route (ps_type st) = RDecoder -> ps_dec st = NewDec (ps_type st)).
+Proof. exact resolve_safe. Qed.
+Print Assumptions c12_in_selects_decoder.
+
+Theorem c12_type_name_roundtrip : forall t, 1 <= t <= 10 -> type_from_string (type_name t) = t.
+Proof. exact type_name_roundtrip. Qed.
+Print Assumptions c12_type_name_roundtrip.
+
+(* "never crashes the process" at the level of Pipeline.In: checkInputBytes' not-an-event test, the switch (RAW's
+   bytes[:len(bytes)-1] included) and the six hand-written scanners, for every configuration that starts, every params
+   value and every line *)
+Theorem c12_pipeline_in_total : forall pok name suggested st params data p,
+  pipe_resolve pok name suggested = Some st ->
+  pipe_in (ps_type st) params data <> Panic p.
+Proof. exact pipe_in_total. Qed.
+Print Assumptions c12_pipeline_in_total.
+
+(* the RAW decoder: the message is the line without its last byte, whatever that byte is *)
+Theorem c12_pipeline_in_raw : forall params msg c,
+  not_an_event (msg ++ [c]) = false -> pipe_in 3 params (msg ++ [c]) = Ok (SL [SB msg]).
+Proof. exact pipe_in_raw. Qed.
+Print Assumptions c12_pipeline_in_raw.
+
+Theorem c12_pipeline_in_cri_faithful : forall params time stream t0 tag log,
+  index_byte time SP = -1 -> index_byte stream SP = -1 -> len stream = 6 ->
+  index_byte (t0 :: tag) SP = -1 ->
+  pipe_in 4 params (cri_line time stream (t0 :: tag) log) =
+  Ok (sx_cri {| cri_time := time; cri_stream := stream; cri_partial := beq t0 80%N;
+                cri_log := if beq t0 80%N then removelast log else log |}).
+Proof. exact pipe_in_cri_faithful. Qed.
+Print Assumptions c12_pipeline_in_cri_faithful.
+
+(* a refused line yields no event: EventSeqIDError, or a Fatal log entry under is_strict / csv "fatal" *)
+Theorem c12_pipeline_in_refused : forall strict t params meta data e,
+  pipe_in t params data = Err e ->
+  pipe_item strict t params meta data = Some (SL [SZ 0]) \/ pipe_item strict t params meta data = Some (SL [SZ 4]).
+Proof. exact pipe_item_refused. Qed.
+Print Assumptions c12_pipeline_in_refused.
+
+(* ---- the parameter checks of the constructors (decoder.New -> extract*Params) ------------------------ *)
+(* the former assumption "json_max_fields_size limits are >= 0" (hypothesis 0 <= limit of c12_json_cut_total): whatever
+   extractJsonParams accepts - int, float64 (truncated toward zero), json.Number - has no negative limit *)
+Theorem c12_json_params_nonneg : forall params limits,
+  json_params params = Ok limits -> Forall (fun kv => 0 <= snd kv) limits.
+Proof. exact json_params_nonneg. Qed.
+Print Assumptions c12_json_params_nonneg.
+
+(* every csv decoder that can be built has a delimiter other than NUL, the quote, CR and LF ... *)
+Theorem c12_csv_params_delimiter : forall params c,
+  csv_params params = Ok c ->
+  cc_delim c <> 0%N /\ cc_delim c <> QUOTE /\ cc_delim c <> 13%N /\ cc_delim c <> NL.
+Proof. exact csv_params_delim. Qed.
+Print Assumptions c12_csv_params_delimiter.
+
+(* ... so the faithfulness of csv holds for it without a hypothesis on the delimiter *)
+Theorem c12_csv_built_faithful : forall params c trim_space fields,
+  csv_params params = Ok c ->
+  Forall (fun f => index_byte f (cc_delim c) = -1 /\ index_byte f QUOTE = -1 /\ index_byte f NL = -1) fields ->
+  csv_line (cc_delim c) fields <> [] ->
+  trim_space (last fields []) = last fields [] ->
+  decode_csv trim_space (cc_delim c) (csv_line (cc_delim c) fields) = Ok fields.
+Proof. exact csv_built_faithful. Qed.
+Print Assumptions c12_csv_built_faithful.
+
+Theorem c12_syslog_params_formats : forall params ff sf,
+  syslog_params params = Ok (ff, sf) ->
+  (ff = K_number \/ ff = K_string) /\ (sf = K_number \/ sf = K_string).
+Proof. exact syslog_params_formats. Qed.
+Print Assumptions c12_syslog_params_formats.
+
+(* no parameter check panics, whatever the Params hold (any Go value under any key) *)
+Theorem c12_params_total : forall kind params compiles has_message m,
+  params_model kind params compiles has_message = Some m -> is_bad_obs m = false.
+Proof. exact params_total. Qed.
+Print Assumptions c12_params_total.
+
 (* ---- non-vacuity --------------------------------------------------------------------------------- *)
 From Coq Require Import Strings.String.
 Local Open Scope Z_scope.
@@ -276,3 +376,37 @@ Proof.
   repeat split; try (vm_compute; reflexivity); try exact alias_raw_not_at_0.
   repeat constructor; apply Z.leb_le; reflexivity.
 Qed.
+
+Example c12_pipeline_in_nonvacuous :
+  (* "auto" + SuggestDecoder(NO), (CRI), (POSTGRES): the first suggestion that is a type wins *)
+  pipe_resolve (fun _ => true) (bs "auto") [0; 4; 5] = Some {| ps_type := 4; ps_dec := NewNil; ps_params := true |}
+  (* "auto" alone: JSON, built without the params *)
+  /\ pipe_resolve (fun _ => true) (bs "auto") [] = Some {| ps_type := 2; ps_dec := NewDec 2; ps_params := false |}
+  /\ pipe_resolve (fun _ => true) (bs "csv") [4] = Some {| ps_type := 10; ps_dec := NewDec 10; ps_params := true |}
+  /\ pipe_resolve (fun _ => true) (bs "jsonl") [] = None
+  /\ pipe_resolve (fun t => negb (t =? 7)) (bs "auto") [7] = None
+  /\ pipe_in 3 (SL [SZ 0]) (bs "x") = Ok (SL [SB []])
+  /\ pipe_in 3 (SL [SZ 0]) [NL] = Err 0
+  /\ pipe_item false 10 (SL [SZ 10; SZ 59; SZ 2; SZ 2; SB (bs "p_")]) [] (bs "a;b;c") = Some (SL [SZ 4])
+  /\ pipe_item false 10 (SL [SZ 10; SZ 59; SZ 2; SZ 1; SB (bs "p_")]) [(bs "m", bs "v")] (bs "a;b;c") =
+       Some (SL [SZ 1; SL [SL [SB (bs "c0"); SB (bs "a")]; SL [SB (bs "c1"); SB (bs "b")]; SL [SB (bs "m"); SB (bs "v")];
+                          SL [SB (bs "p_2"); SB (bs "c")]]])
+  /\ pipe_item true 4 (SL [SZ 0]) [] (bs "bad") = Some (SL [SZ 4])
+  /\ select_model (bs "syslog_rfc5424") = SL [SZ 9; SZ 1; SZ 9]
+  /\ select_model (bs "cri") = SL [SZ 4; SZ 0]
+  /\ select_model (bs "CRI") = SL [SZ 0; SZ 2].
+Proof. repeat split; vm_compute; reflexivity. Qed.
+
+Example c12_params_nonvacuous :
+  json_params [SL [SB K_json_max_fields_size; SL [SZ 4; SL [SB (bs "a"); SL [SZ 5; SZ (-1)]]; SL [SB (bs "b"); SL [SZ 6; SB (bs "+12")]]]]]
+    = Ok [(bs "a", 0); (bs "b", 12)]
+  /\ json_params [SL [SB K_json_max_fields_size; SL [SZ 4; SL [SB (bs "a"); SL [SZ 1; SZ (-1)]]]]] = Err 3
+  /\ json_params [SL [SB K_json_max_fields_size; SL [SZ 4; SL [SB (bs "a"); SL [SZ 6; SB (bs "1.5")]]]]] = Err 2
+  /\ json_params [SL [SB K_json_max_fields_size; SL [SZ 3]]] = Err 1
+  /\ csv_params [SL [SB K_delimiter; SL [SZ 0; SB [QUOTE]]]] = Err 6
+  /\ csv_params [SL [SB K_delimiter; SL [SZ 0; SB (bs ";;")]]] = Err 5
+  /\ csv_params [SL [SB K_columns; SL [SZ 3; SL [SZ 0; SB (bs "x")]]]; SL [SB K_delimiter; SL [SZ 0; SB (bs ";")]]]
+     = Ok {| cc_columns := [bs "x"]; cc_prefix := []; cc_mode := K_default; cc_delim := 59%N |}
+  /\ syslog_params [SL [SB K_syslog_severity_format; SL [SZ 0; SB (bs "str")]]] = Err 4
+  /\ proto_params [SL [SB K_proto_file; SL [SZ 0; SB (bs "x")]]] true true = Err 3.
+Proof. repeat split; vm_compute; reflexivity. Qed.
